@@ -16,6 +16,10 @@
      commonroad/common/writer/file_writer_xml.py       PlanningProblemXMLNode.create_node (1018-1027)
      commonroad/common/writer/file_writer_protobuf.py  PlanningProblemMessage.create_message (830-841)
      commonroad/common/reader/file_reader_xml.py       GoalRegionFactory (1420-1431: the table is a defaultdict(list))
+     commonroad/geometry/shape.py           occupancy_shape_from_state (553-627: the region occupied in an uncertain state
+                                            is a new Rectangle around a new centre array; position / orientation are read)
+     commonroad/visualization/mp_renderer.py  draw_lanelet_network (990-1024: with draw_intersections the id sets of all
+                                            intersections are united with set.union over the unpacked list, i.e. into new sets)
 
    [code] selects between the code as it is now ([repaired]) and the two earlier versions, so that the theorems
    about the repaired code are not vacuous: the earlier versions are refuted in Proofs/ReadOnly.v. *)
@@ -38,30 +42,38 @@ Definition attr_eqb (a b : attr) : bool :=
   | _, _ => false
   end.
 
-(* a stored trajectory state: time step, the names in the instance dictionary (State.attributes), and whether the
-   class provides `orientation` as a property (PMState) *)
-Record tstate := { st_time : Z; st_attrs : list attr; st_prop_orient : bool }.
+(* a stored trajectory state: time step, the names in the instance dictionary (State.attributes), whether the
+   class provides `orientation` as a property (PMState), and the stored values (exact or uncertain position — the
+   arrays of a position region by value —, orientation or orientation interval, ...) as one number *)
+Record tstate := { st_time : Z; st_attrs : list attr; st_prop_orient : bool; st_val : Z }.
 Definition in_dict (a : attr) (st : tstate) : bool := existsb (attr_eqb a) (st_attrs st).
 Definition has_attr (a : attr) (st : tstate) : bool :=      (* hasattr(state, a) *)
   in_dict a st || match a with Orientation => st_prop_orient st | _ => false end.
 Definition set_attr (a : attr) (st : tstate) : tstate :=    (* state.a = value *)
   if in_dict a st then st
-  else {| st_time := st_time st; st_attrs := st_attrs st ++ [a]; st_prop_orient := st_prop_orient st |}.
+  else {| st_time := st_time st; st_attrs := st_attrs st ++ [a]; st_prop_orient := st_prop_orient st;
+          st_val := st_val st |}.
 
 Inductive pred :=
 | PTraj (sts : list tstate) (occ : option (list Z))   (* TrajectoryPrediction: states; cached occupancy_set (its time steps) *)
 | PSet (times : list Z)                               (* SetBasedPrediction: time steps of the stored occupancies *)
 | PNone.
 Inductive role := Static | Dynamic | Phantom | Env.
-Record obst := { o_role : role; o_t0 : Z; o_pred : pred }.
+(* o_val: the other stored data of the obstacle (shape, initial state, signals, ...) as one number *)
+Record obst := { o_role : role; o_t0 : Z; o_pred : pred; o_val : Z }.
 
 Record lanelet := { l_id : Z; l_dist : bool; l_inner : bool }.      (* _distance / _inner_distance is not None *)
 Record cycle := { c_durs : list Z; c_off : Z; c_cum : option (list Z) }.   (* _cycle_init_timesteps, if the attribute exists *)
+(* intersections: per incoming element its id and the id sets incoming_lanelets / successors_right / _straight /
+   _left (sorted), per intersection its id, the incoming elements and the crossings *)
+Record incoming := { i_id : Z; i_lanelets : list Z; i_right : list Z; i_straight : list Z; i_left : list Z }.
+Record inter := { x_id : Z; x_incs : list incoming; x_cross : list Z }.
 Record net := {
   n_lanelets : list lanelet;
   n_buffered : list Z;              (* keys of _buffered_polygons *)
   n_tree : option (list Z);         (* None: _strtee is None; Some ids: the lanelet ids indexed by _strtee *)
-  n_lights : list (option cycle) }. (* traffic lights: their cycle or None *)
+  n_lights : list (option cycle);   (* traffic lights: their cycle or None *)
+  n_inters : list inter }.
 
 (* GoalRegion.lanelets_of_goal_position: None, a dict, or the XML reader's defaultdict(list); items in insertion order *)
 Inductive table := TNone | TDict (kv : list (Z * list Z)) | TDefault (kv : list (Z * list Z)).
@@ -72,9 +84,10 @@ Record scen := { s_obst : list obst; s_net : net; s_goals : list goal }.
 (* ------------------------------------------------------------------ results *)
 Inductive exn := AttributeError | KeyError.
 Inductive found := Found | Missing | Raised.
-(* the part of an exported file the modelled data determine: per obstacle the stored states with their attribute
-   names, per planning problem the lanelet references written for every goal state *)
-Definition file := (list (list (Z * list attr)) * list (list (list Z)))%type.
+(* the part of an exported file the modelled data determine: per obstacle its own data and the stored states with
+   their attribute names and values, per planning problem the lanelet references written for every goal state, the
+   intersections *)
+Definition file := (list (Z * list (Z * list attr * Z)) * list (list (list Z)) * list inter)%type.
 Inductive res :=
 | RUnit | RErr (e : exn)
 | RFound (f : found)
@@ -102,6 +115,7 @@ Definition table_items (t : table) : option (list (Z * list Z)) :=
 (* _create_occupancy_set: for every state in order; a state without `orientation` gets one derived from
    (velocity_y, velocity) — on a shallow copy in the repaired code, on the stored state itself before;
    getattr(state, "velocity_y") / state.velocity raise AttributeError, which ends the loop.
+   occupancy_shape_from_state reads the values of the (copied) state and builds new shapes: st_val is not written.
    Returns the states as they are afterwards and the time steps of the occupancies (None: raised). *)
 Fixpoint create_occ (c : code) (sts : list tstate) : list tstate * option (list Z) :=
   match sts with
@@ -135,7 +149,8 @@ Definition pred_occ_at (c : code) (p : pred) (t : Z) : pred * found :=
          end
   end.
 
-Definition with_pred (o : obst) (p : pred) : obst := {| o_role := o_role o; o_t0 := o_t0 o; o_pred := p |}.
+Definition with_pred (o : obst) (p : pred) : obst :=
+  {| o_role := o_role o; o_t0 := o_t0 o; o_pred := p; o_val := o_val o |}.
 
 (* <role>Obstacle.occupancy_at_time *)
 Definition occ_at (c : code) (o : obst) (t : Z) : obst * found :=
@@ -191,11 +206,14 @@ Definition fill_cum (c : cycle) : cycle * list Z :=
   end.
 
 Definition with_tree (n : net) (t : option (list Z)) : net :=
-  {| n_lanelets := n_lanelets n; n_buffered := n_buffered n; n_tree := t; n_lights := n_lights n |}.
+  {| n_lanelets := n_lanelets n; n_buffered := n_buffered n; n_tree := t; n_lights := n_lights n;
+     n_inters := n_inters n |}.
 Definition with_lanelets (n : net) (ls : list lanelet) : net :=
-  {| n_lanelets := ls; n_buffered := n_buffered n; n_tree := n_tree n; n_lights := n_lights n |}.
+  {| n_lanelets := ls; n_buffered := n_buffered n; n_tree := n_tree n; n_lights := n_lights n;
+     n_inters := n_inters n |}.
 Definition with_lights (n : net) (ts : list (option cycle)) : net :=
-  {| n_lanelets := n_lanelets n; n_buffered := n_buffered n; n_tree := n_tree n; n_lights := ts |}.
+  {| n_lanelets := n_lanelets n; n_buffered := n_buffered n; n_tree := n_tree n; n_lights := ts;
+     n_inters := n_inters n |}.
 (* _create_strtree: index over the buffered polygons (all of them are shapely polygons) *)
 Definition create_tree (n : net) : net := with_tree n (Some (n_buffered n)).
 
@@ -210,10 +228,17 @@ Definition goal_refs (g : goal) : list (list Z) :=
                 | None => []
                 | Some kv => match lookup (Z.of_nat i) kv with Some v => v | None => [] end
                 end) (seq 0 (g_n g)).
-Definition pred_states (p : pred) : list (Z * list attr) :=
-  match p with PTraj sts _ => map (fun st => (st_time st, st_attrs st)) sts | _ => [] end.
+Definition pred_states (p : pred) : list (Z * list attr * Z) :=
+  match p with PTraj sts _ => map (fun st => (st_time st, st_attrs st, st_val st)) sts | _ => [] end.
 Definition export (s : scen) : file :=
-  (map (fun o => pred_states (o_pred o)) (s_obst s), map goal_refs (s_goals s)).
+  (map (fun o => (o_val o, pred_states (o_pred o))) (s_obst s), map goal_refs (s_goals s), n_inters (s_net s)).
+
+(* draw_lanelet_network with draw_intersections: set.union, unpacked list, over all incoming elements / intersections;
+   the unions are new sets (here: concatenations), the stored sets are only read *)
+Definition inter_unions (xs : list inter) : list Z :=
+  let incs := flat_map x_incs xs in
+  flat_map i_lanelets incs ++ flat_map x_cross xs ++ flat_map i_left incs ++ flat_map i_straight incs
+  ++ flat_map i_right incs.
 
 (* the protobuf writer before the repair: `table is not None` ? table[i] : [] — indexing a dict without the
    key raises KeyError, indexing a defaultdict without the key inserts (i, []) *)
@@ -256,9 +281,10 @@ Inductive op :=
 | EqOp | HashOp | StrOp                (* == / != , hash, str / repr on the scenario, the planning problems and their parts *)
 | DeepCopy                             (* copy.deepcopy of scenario, planning problem set, lanelet network *)
 | ShallowCopy | Pickle                 (* copy.copy; pickle.dumps + loads *)
-| Draw (occ : list nat) (dist : list nat) (cum : list nat)
-      (* draw + render: which occupancy sets / lanelet distances / light cycles the renderer asks for depends on the
-         draw parameters and the geometry — an oracle input of the operation *)
+| Draw (hl : bool) (occ : list nat) (dist : list nat) (cum : list nat)
+      (* draw + render with any draw parameters; hl: draw_params.lanelet_network.intersection.draw_intersections (the
+         id sets of the intersections are united).  Which occupancy sets / lanelet distances / light cycles the
+         renderer asks for depends on the other draw parameters and the geometry — an oracle input of the operation *)
 | XmlWrite | PbWrite.
 
 Definition step (c : code) (s : scen) (o : op) : scen * res :=
@@ -302,14 +328,15 @@ Definition step (c : code) (s : scen) (o : op) : scen * res :=
   | Pickle =>
       (* __getstate__ leaves the index out of a copy of the instance dictionary; __setstate__ rebuilds it *)
       (s, RCopy (with_net s (create_tree (s_net s))))
-  | Draw occ dist cum =>
+  | Draw hl occ dist cum =>
       let os := fold_left (fun os k => match nth_error os k with
                                        | None => os
                                        | Some ob => upd_nth k (fun _ => with_pred ob (fst (fill_occ c (o_pred ob)))) os
                                        end) occ (s_obst s) in
       let ls := fold_left (fun ls k => upd_nth k fill_dist ls) dist (n_lanelets (s_net s)) in
       let ts := fold_left (fun ts k => upd_nth k (option_map (fun x => fst (fill_cum x))) ts) cum (n_lights (s_net s)) in
-      ({| s_obst := os; s_net := with_lights (with_lanelets (s_net s) ls) ts; s_goals := s_goals s |}, RUnit)
+      ({| s_obst := os; s_net := with_lights (with_lanelets (s_net s) ls) ts; s_goals := s_goals s |},
+       if hl then RIds (inter_unions (n_inters (s_net s))) else RUnit)
   | XmlWrite => (s, RFile (export s))
   | PbWrite =>
       if pb_checks_key c then (s, RFile (export s))
@@ -326,7 +353,7 @@ Definition obs_lanelet (l : lanelet) : lanelet := {| l_id := l_id l; l_dist := f
 Definition obs_cycle (c : cycle) : cycle := {| c_durs := c_durs c; c_off := c_off c; c_cum := None |}.
 Definition obs_net (n : net) : net :=
   {| n_lanelets := map obs_lanelet (n_lanelets n); n_buffered := []; n_tree := None;
-     n_lights := map (option_map obs_cycle) (n_lights n) |}.
+     n_lights := map (option_map obs_cycle) (n_lights n); n_inters := n_inters n |}.
 Definition observe (s : scen) : scen :=
   {| s_obst := map obs_obst (s_obst s); s_net := obs_net (s_net s); s_goals := s_goals s |}.
 
